@@ -28,7 +28,13 @@ static Verdict runCase(const HistCase& c, Info& info)
     for (const auto& h : c.history)
     {
         auto batch = buildBatch(h);
-        encodeVia(a, batch, lib::DataContext{h.minB, h.maxB}, h.overload);
+        if (h.abortAfter >= 0)
+        {
+            if (encodeAborted(a, batch, lib::DataContext{h.minB, h.maxB}, h.abortAfter))
+                info.tag("history_contains_call_ended_by_exception");
+        }
+        else
+            encodeVia(a, batch, lib::DataContext{h.minB, h.maxB}, h.overload);
     }
     auto batch = buildBatch(c.last);
     auto fa = encodeVia(a, batch, lib::DataContext{c.last.minB, c.last.maxB}, c.last.overload);
@@ -71,6 +77,12 @@ static Verdict runCase(const HistCase& c, Info& info)
     for (const auto& h : c.history)
         if (h.packets.empty())
             info.tag("history_contains_empty_batch");
+    for (const auto& r : c.last.packets)
+        if (r.emptyPayload)
+        {
+            info.tag("final_batch_has_packet_with_zero_length_payload");
+            break;
+        }
     info.nontrivial = !c.history.empty() && (k.segmented || k.mixedTypes);
     return Verdict::pass();
 }
@@ -91,6 +103,9 @@ static rc::Gen<HistCase> genCase(int tier)
         {
             c.history.push_back(*genEncCase(p));
             c.history.back().overload = *range<uint8_t>(0, 3);
+            // one in six history calls ends with an exception thrown by the caller's iterator part-way through the batch
+            if (!c.history.back().packets.empty() && *range<int>(0, 5) == 0)
+                c.history.back().abortAfter = *range<int32_t>(0, static_cast<int32_t>(c.history.back().packets.size()) - 1);
         }
         p.allowEmpty = false;
         p.boundaryWeight = 8;
@@ -107,6 +122,23 @@ static rc::Gen<HistCase> genCase(int tier)
             if (prev.kind == rkGeneric && c.last.packets.front().len == 0)
                 c.last.packets.front().len = 1;
         }
+        // packets with a payload object of zero bytes (they put no message on the wire but may open a frame) in the history
+        // and in the final batch
+        auto addEmpty = [](EncCase& e) {
+            PacketRecipe z;
+            z.kind = rkGeneric;
+            z.msgType = *rc::gen::element<uint8_t>(1, 2, 3, 0xFF);
+            z.ptype = *rc::gen::element<uint8_t>(0x01, 0x20, 0xFF);
+            z.len = 0;
+            z.emptyPayload = 1;
+            size_t at = *rc::gen::weightedOneOf<size_t>({{1, rc::gen::just<size_t>(0)}, {1, rc::gen::just(e.packets.size())}, {1, range<size_t>(0, e.packets.size())}});
+            e.packets.insert(e.packets.begin() + static_cast<std::ptrdiff_t>(at), z);
+        };
+        for (auto& h : c.history)
+            if (*range<int>(0, 5) == 0)
+                addEmpty(h);
+        if (*range<int>(0, 5) == 0)
+            addEmpty(c.last);
         // rare class: a packet whose payload type carries message type 0 ("undefined", what the decoder hands out for
         // payloads it could not type) - the encoder's own sentinel value for "no message type yet"
         if (*range<int>(0, 7) == 0)
